@@ -88,9 +88,12 @@ func VerifC13CreateSigning() {
 	incKind := vs.Pick("incoming", 3) // 0 no transition, 1 WAITING_EXECUTION, 2 transition in another status
 	threshold := vs.U64("threshold")
 	vs.Assume(threshold >= 1 && threshold < 1<<32)
+	size := vs.U64("group_size")
+	vs.Assume(size >= threshold && size < 1<<32)
 	if hasCur {
 		k.SetCurrentGroup(ctx, types.NewCurrentGroup(c13CurGroup, time.Unix(100, 0)))
-		e.tss.Groups[c13CurGroup] = tsstypes.Group{ID: c13CurGroup, Size_: threshold, Threshold: threshold, Status: tsstypes.GROUP_STATUS_ACTIVE}
+		e.tss.Groups[c13CurGroup] = tsstypes.Group{ID: c13CurGroup, Size_: size, Threshold: threshold, Status: tsstypes.GROUP_STATUS_ACTIVE,
+			CreatedHeight: vs.U64("group_created_height")}
 	}
 	incThreshold := vs.U64("incoming_threshold")
 	e.tss.Groups[c13IncGroup] = tsstypes.Group{ID: c13IncGroup, Size_: incThreshold, Threshold: incThreshold, Status: tsstypes.GROUP_STATUS_ACTIVE}
